@@ -12,17 +12,38 @@
 (* reads it.  The driver replays every maximal history on one real         *)
 (* handler.Server (SetQueryCache: none / graphql.MapCache / lru / lru of   *)
 (* size 1) and judges each request against its own record.                 *)
+(*                                                                         *)
+(* THE REQUEST CONTEXT (Mode = "ctx").  A request carries a context that   *)
+(* is live or done (cancelled, or its deadline has passed) - it may be     *)
+(* done before the request is priced, and it may BECOME done while the     *)
+(* operation is priced: custom complexity functions are user code, they    *)
+(* run in the middle of pricing and anything can happen meanwhile (the     *)
+(* harness lets the k-th call of a custom function cancel the context,     *)
+(* which places the cancellation deterministically).  A request is then    *)
+(* three kinds of step: Arrive (with a live or done context), PriceCall    *)
+(* (one custom function runs; the context may become done), Decide.  The   *)
+(* specification HAS the context as state (rctx) and records where it      *)
+(* became done (cp, k) - and no decision reads it: complexity.Calculate    *)
+(* has no error result, so the number it returns is the complexity of the  *)
+(* operation whatever the context does, and an operation over the limit    *)
+(* reaches no resolver whatever the context does.                          *)
 (***************************************************************************)
 EXTENDS Complexity
 
-CONSTANTS MaxReqs, CacheKinds
+CONSTANTS MaxReqs, CacheKinds,
+          Mode         \* "hist": requests are atomic, their context is live (the history dimension);
+                       \* "ctx" : requests are priced call by call and their context may be / become done
 
 VARIABLES cachekind,   \* "none" | "map" | "lru" | "lru1"
           cached,      \* the parsed document of the query text is in the server's query cache
           hist,        \* the requests so far, with the decision the specification prescribes
-          vdef         \* the declaration of $n: "none" = `$n: Int`, "big" = `$n: Int = 100` (then a request
+          vdef,        \* the declaration of $n: "none" = `$n: Int`, "big" = `$n: Int = 100` (then a request
                        \* WITHOUT variables is the expensive one)
-gvars == <<pc, tree, asg, out, bnd, cachekind, cached, hist, vdef>>
+          rctx,        \* the context of the request in flight: "idle" (no request) | "live" | "done"
+          infl,        \* the request in flight [c, rel, cp, k] (cp/k: where its context became done) or NoReq
+          ncalled      \* custom complexity functions called so far while the request in flight is priced
+gvars == <<pc, tree, asg, out, bnd, cachekind, cached, hist, vdef, rctx, infl, ncalled>>
+CtxMode == Mode = "ctx"
 
 V(name) == Fld(name, "var", <<>>)
 SpV == Frag("spread", "A", <<V("arg")>>)
@@ -32,6 +53,16 @@ HistTrees == {
   << Fld("a", "none", <<SpV>>), Fld("node", "none", <<SpV>>) >>,      \* one fragment, spread twice, reading $n
   << Fld("a", "none", <<Fld("kid", "none", <<V("arg")>>)>>), V("withArgs") >>
 }
+\* Mode "ctx": operations that call several custom functions, so that "the context becomes done in the k-th
+\* call" leaves selections unpriced behind it - below a nested field, between root fields, through two shared
+\* ComplexityRoot entries, below one fragment spread under an object and under an interface field
+CtxTrees == {
+  << Fld("a", "none", <<V("arg"), L("id")>>), V("withArgs"), L("s") >>,
+  << Fld("a", "none", <<Fld("kid", "none", <<V("arg")>>)>>), V("withArgs") >>,
+  << Fld("sh", "none", <<Fld("items", "var", <<L("id")>>), Fld("new_bar", "var", <<L("id")>>)>>) >>,
+  << Fld("a", "none", <<SpV>>), Fld("node", "none", <<SpV>>) >>
+}
+GTrees == IF CtxMode THEN CtxTrees ELSE HistTrees
 OtherTree == << L("s") >>    \* a different query text (evicts the document from an lru of size 1)
 
 RECURSIVE Bind(_, _)
@@ -48,36 +79,90 @@ HistAsgs(t) ==
   IN  base \cup {b \cup {[slot |-> sl.slot, fn |-> g]} : b \in base, sl \in OS,
                                                         g \in {Fn("mul", Zero, 2), Fn("add", N(0, 2), 0)}}
 
-Classes == {"none", "set", "big"}     \* $n absent from the request, 3, 100
+Classes == IF CtxMode THEN {"set"} ELSE {"none", "set", "big"}     \* $n absent from the request, 3, 100
+VDefs   == IF CtxMode THEN {"none"} ELSE {"none", "big"}
+\* how a request's context is when the request arrives
+PreStates == IF CtxMode THEN {"live", "cancelled", "deadline"} ELSE {"live"}
+
+RECURSIVE NCalls(_, _, _)
+\* how many times pricing the operation calls a configured custom complexity function (the points at which the
+\* context can become done "during pricing"): once per field selection whose entry has a function, for a field
+\* of an interface once per possible object type whose entry has one; every spread of a fragment counts again
+NCalls(a, tn, sels) ==
+  IF sels = <<>> THEN 0
+  ELSE LET s == Head(sels)
+           own == IF s.k = "field"
+                  THEN (IF s.name \in Meta THEN 0
+                        ELSE LET fd  == Schema[tn].fields[s.name]
+                                 sub == IF IsComposite(fd.type) THEN NCalls(a, fd.type, s.sels) ELSE 0
+                                 me  == IF Schema[tn].kind = "INTERFACE"
+                                        THEN Cardinality({p \in Range(Schema[tn].possible) : CustomOf(a, p, s.name).k # "none"})
+                                        ELSE (IF CustomOf(a, tn, s.name).k # "none" THEN 1 ELSE 0)
+                             IN  sub + me)
+                  ELSE NCalls(a, OnType(tn, s), s.sels)
+       IN  own + NCalls(a, tn, Tail(sels))
 Eff(c) == IF c = "none" THEN vdef ELSE c          \* an absent variable takes its default, if declared
 CxOf(c) == Cx(asg, Bind(tree, Eff(c)))
 \* limits at the boundary of THIS request's complexity: any stale complexity from another request flips one of them
-Req(c, rel) ==
+\* THE decision.  cp / k (where the request's context became done: "live" = never, "cancelled" / "deadline" =
+\* before pricing, "during" = in the k-th call of a custom complexity function) are recorded and NOT read.
+Req(c, rel, cp, k) ==
   LET cx  == CxOf(c)
       lim == IF rel = "below" THEN NPlus(cx, N(0, -1)) ELSE cx
       d   == Decide(cx, lim, tree)
-  IN  [other |-> FALSE, c |-> c, x |-> ArgOfClass(Eff(c)), lim |-> lim, cx |-> cx, rej |-> d.rej]
+  IN  [other |-> FALSE, c |-> c, x |-> ArgOfClass(Eff(c)), lim |-> lim, cx |-> cx, rej |-> d.rej, runs |-> d.runs,
+       cp |-> cp, k |-> k]
 OtherReq ==
-  LET cx == Cx(asg, OtherTree) IN [other |-> TRUE, c |-> "none", x |-> 0, lim |-> cx, cx |-> cx, rej |-> FALSE]
+  LET cx == Cx(asg, OtherTree) IN [other |-> TRUE, c |-> "none", x |-> 0, lim |-> cx, cx |-> cx, rej |-> FALSE,
+                                   runs |-> RootFields(OtherTree), cp |-> "live", k |-> 0]
 
-GInit == /\ pc = "hist" /\ bnd = Binding /\ tree \in HistTrees /\ asg \in HistAsgs(tree) /\ out = NoOut
-         /\ cachekind \in CacheKinds /\ cached = FALSE /\ hist = <<>> /\ vdef \in {"none", "big"}
+NoReq == [c |-> "", rel |-> "", cp |-> "", k |-> 0]
+GInit == /\ pc = "hist" /\ bnd = Binding /\ tree \in GTrees /\ asg \in HistAsgs(tree) /\ out = NoOut
+         /\ cachekind \in CacheKinds /\ cached = FALSE /\ hist = <<>> /\ vdef \in VDefs
+         /\ rctx = "idle" /\ infl = NoReq /\ ncalled = 0
 
+\* Mode "hist": a request with a live context, priced and decided in one step
 Request(c, rel) ==
+  /\ ~CtxMode
   /\ Len(hist) < MaxReqs
-  /\ hist' = Append(hist, Req(c, rel))
+  /\ hist' = Append(hist, Req(c, rel, "live", 0))
   /\ cached' = (cachekind # "none")          \* parseQuery adds the document on a miss
+  /\ UNCHANGED <<pc, tree, asg, out, bnd, cachekind, vdef, rctx, infl, ncalled>>
+
+\* Mode "ctx": the request arrives with a live or an already done context ...
+Arrive(c, rel, pre) ==
+  /\ CtxMode /\ infl = NoReq /\ Len(hist) < MaxReqs
+  /\ infl' = [c |-> c, rel |-> rel, cp |-> pre, k |-> 0]
+  /\ rctx' = (IF pre = "live" THEN "live" ELSE "done")
+  /\ ncalled' = 0
+  /\ UNCHANGED <<pc, tree, asg, out, bnd, cachekind, cached, hist, vdef>>
+\* ... is priced: one custom complexity function (user code) runs; meanwhile the context may become done ...
+PriceCall(cancel) ==
+  /\ infl # NoReq /\ ncalled < NCalls(asg, "Query", tree)
+  /\ (cancel => rctx = "live")
+  /\ ncalled' = ncalled + 1
+  /\ rctx' = (IF cancel THEN "done" ELSE rctx)
+  /\ infl' = (IF cancel THEN [infl EXCEPT !.cp = "during", !.k = ncalled + 1] ELSE infl)
+  /\ UNCHANGED <<pc, tree, asg, out, bnd, cachekind, cached, hist, vdef>>
+\* ... and decided when everything is priced - by Req, which has no context parameter
+DecideReq ==
+  /\ infl # NoReq /\ ncalled = NCalls(asg, "Query", tree)
+  /\ hist' = Append(hist, Req(infl.c, infl.rel, infl.cp, infl.k))
+  /\ cached' = (cachekind # "none")
+  /\ infl' = NoReq /\ rctx' = "idle" /\ ncalled' = 0
   /\ UNCHANGED <<pc, tree, asg, out, bnd, cachekind, vdef>>
 
 \* a request with another query text between two requests of interest
 Other ==
   /\ Len(hist) >= 1 /\ Len(hist) < MaxReqs - 1
   /\ ~hist[Len(hist)].other
+  /\ ~CtxMode
   /\ hist' = Append(hist, OtherReq)
   /\ cached' = (IF cachekind = "lru1" THEN FALSE ELSE cached)
-  /\ UNCHANGED <<pc, tree, asg, out, bnd, cachekind, vdef>>
+  /\ UNCHANGED <<pc, tree, asg, out, bnd, cachekind, vdef, rctx, infl, ncalled>>
 
-GNext == (\E c \in Classes, rel \in {"below", "at"} : Request(c, rel)) \/ Other
+GNext == \/ \E c \in Classes, rel \in {"below", "at"} : Request(c, rel) \/ (\E pre \in PreStates : Arrive(c, rel, pre))
+         \/ Other \/ PriceCall(TRUE) \/ PriceCall(FALSE) \/ DecideReq
 GSpec == GInit /\ [][GNext]_gvars
 
 \* The gate decision of request i is Gate(Cx(op, vars_i), limit_i) - whatever was served before,
@@ -89,6 +174,23 @@ GateIndependent ==
                      /\ r.rej = NLt(r.lim, r.cx)
       /\ \A j \in 1..Len(hist) : (hist[j].other = r.other /\ hist[j].c = r.c /\ hist[j].lim = r.lim) => hist[j].rej = r.rej
 CacheInv == cached => cachekind # "none"
+\* THE CONTEXT THEOREMS.  (1) The complexity recorded for a request is the complexity of (operation, variables)
+\* wherever and whenever its context became done; two requests that differ only in that get the same number
+\* and the same decision.  (2) A request over the limit runs no resolver, whatever the context did.
+CtxIndependent ==
+  \A i \in 1..Len(hist), j \in 1..Len(hist) :
+     (hist[i].other = hist[j].other /\ hist[i].c = hist[j].c) =>
+        /\ hist[i].cx = hist[j].cx
+        /\ (hist[i].lim = hist[j].lim => hist[i].rej = hist[j].rej /\ hist[i].runs = hist[j].runs)
+OverLimitRunsNothing == \A i \in 1..Len(hist) : hist[i].rej => hist[i].runs = {}
+CtxInv == /\ (rctx = "idle") = (infl = NoReq)
+          /\ ncalled \in 0..NCalls(asg, "Query", tree)
+          /\ infl # NoReq => /\ (rctx = "live") = (infl.cp = "live")
+                             /\ (infl.cp = "during") => infl.k \in 1..ncalled
+          /\ (~CtxMode) => rctx = "idle"
+          /\ \A i \in 1..Len(hist) : hist[i].cp = "during" => hist[i].k \in 1..NCalls(asg, "Query", tree)
+\* non-vacuity of the "ctx" corpus: every operation calls at least two custom functions
+TCtxCalls == CtxMode => NCalls(asg, "Query", tree) >= 2
 \* the cost functions that read the argument are monotone in it
 TArgMono == /\ NLe(Cx(asg, Bind(tree, "none")), CxOf("set")) /\ NLe(CxOf("set"), CxOf("big"))
             /\ (vdef = "big" => CxOf("none") = CxOf("big"))
